@@ -309,6 +309,13 @@ def cases(tier, rng):
   for present in ([], [[2, 0]], [[1, 1]], [[2, 0], [1, 1]], [[0, 0], [2, 2]]):
     yield {'mode': 'search', 'name': 'probe.gin', 'absolute': True, 'locs': [1, 2],
            'readers': [1, 2], 'present': present}
+  # locations and names that are not normalised file-system paths (a registered reader decides
+  # what a name means): the reader must be asked for exactly join(location, name)
+  for locs in (['mem://bucket/cfg', 'mem://bucket/other'], ['zip:a//b', 'mem://x/../y'],
+               ['./rel', 'rel']):
+    for name in ('main.gin', 'sub/../main.gin', './main.gin', 'a//main.gin'):
+      for present in ([0], [1], [0, 1], []):
+        yield {'mode': 'opaque', 'locs': locs, 'name': name, 'present': present}
   # package-relative names: (cwd,open) (cwd,package) (L1,open) (L1,V1), every subset
   for style in ('c14pkg/conf', 'c14pkg.conf'):
     for bits in range(16):
@@ -461,6 +468,48 @@ def _check_search(case):
                          'f.a=%r' % got, sig + ' present=%d' % len(case['present'])))
     if res.filename != name:
       fails.append(_fail('result_mirrors_tree', name, res.filename, sig + ' filename'))
+  return fails
+
+
+def _check_opaque(case):
+  fails = []
+  with _world([], []) as w:
+    _register()
+    store, asked = {}, []
+
+    def exists(path):
+      asked.append(path)
+      return path in store
+
+    gin.config.register_file_reader(lambda path: io.StringIO(store[path]), exists)
+    for loc in case['locs']:
+      gin.add_config_file_search_path(loc)
+    name = case['name']
+    for i in case['present']:
+      store[os.path.join(case['locs'][i], name)] = (
+          'f.a = %d\ninclude %r\n' % (i, 'inc_' + os.path.basename(name)))
+      store[os.path.join(case['locs'][i], 'inc_' + os.path.basename(name))] = 'f.b = %d\n' % i
+    # an included name is searched again from the first location: make the LAST location's
+    # include unreachable-by-accident only if an earlier location also holds one
+    sig = 'reader-defined (non file-system) locations'
+    try:
+      gin.parse_config_file(name)
+      got = _observe_literal()
+    except IOError as e:
+      if case['present']:
+        fails.append(_fail('search_order', 'found at location %d' % case['present'][0],
+                           'IOError %s; reader was asked %r' % (str(e)[:120], asked[:6]), sig))
+      return fails
+    if not case['present']:
+      fails.append(_fail('missing_is_ioerror', 'IOError', 'parsed %r' % got, sig))
+      return fails
+    want = min(case['present'])
+    if got.get('/f.a') != want or got.get('/f.b') != want:
+      fails.append(_fail('search_order', 'f.a = f.b = %d' % want, got, sig))
+    expect_asked = [os.path.join(l, name) for l in [''] + case['locs']][:want + 2]
+    mine = [a for a in asked if os.path.basename(a) == os.path.basename(name)]
+    if mine[:len(expect_asked)] != expect_asked:
+      fails.append(_fail('search_order', expect_asked, mine[:6], sig + ' names the reader saw'))
   return fails
 
 
@@ -624,4 +673,4 @@ def _check_multi(case):
 
 def check(case):
   return {'tree': _check_tree, 'search': _check_search, 'package': _check_package,
-          'multi': _check_multi}[case['mode']](case)
+          'multi': _check_multi, 'opaque': _check_opaque}[case['mode']](case)
